@@ -678,7 +678,8 @@ class SigmaNumber(SigmaType):
             if not isfinite(f):
                 raise ValueError("Invalid number")
             i = int(init_number)
-            if i == f:
+            if i == f or isinstance(init_number, int):
+                # an integer stays an integer, also beyond the range where float() is exact
                 self.number = i
             else:
                 self.number = f
